@@ -298,7 +298,7 @@ def _session_case(name):
 
 
 def cases(tier):
-    L = [(1, 1, 1), (2, 2, 1), (0, 0, 2), (2, 1, 2)] if tier != 'thorough' else \
+    L = [(1, 1, 1), (2, 2, 1), (0, 0, 2), (2, 1, 2), (1, 1, 0)] if tier != 'thorough' else \
         [(a, b, c) for a in (0, 1, 2, 3) for b in (0, 1, 3) for c in (0, 1, 3)]
     cs = [(case_connect, f'one admission step, text lengths request/NS/EW = {l}', dict(lens=l)) for l in L]
     for n in (('A1',) if tier != 'thorough' else ('A1', 'A2')):
